@@ -435,7 +435,27 @@ func checkC17(c *Ctx, r *Report) {
 		for _, k := range []string{configPkg + ".UpdatePartialFromConfig", "(*" + configPkg + ".ConfigProp).Stage", "(*" + configPkg + ".ConfigProp).CommitStaged", "(*" + configPkg + ".ConfigProp).UnmarshalJSONStaged", "(*" + configPkg + ".ConfigProp).RollbackStaged", "(*" + configPkg + ".ConfigProp).ConfirmCommitted"} {
 			updRoots = append(updRoots, c.FuncsNamed(k)...)
 		}
-		ureach := syncReach(li, updRoots)
+		// calls that work on a fresh configuration (NewDefault() in the same function: the dry run's candidate copy)
+		// cannot touch the overrides of the live one
+		onFreshCopy := func(caller *ssa.Function, in ssa.Instruction) bool {
+			call, ok := asCall(in)
+			if !ok {
+				return false
+			}
+			if calleeName(call) == configPkg+".NewDefault" {
+				return true
+			}
+			for _, a := range callArgs(call) {
+				if derivesFrom(a, func(v ssa.Value) bool {
+					c2, ok := v.(*ssa.Call)
+					return ok && calleeName(c2) == configPkg+".NewDefault" && c2.Parent() == caller
+				}) {
+					return true
+				}
+			}
+			return false
+		}
+		ureach := syncReachSkipping(li, updRoots, onFreshCopy)
 		var badU []string
 		for f := range ureach {
 			k := fnKey(f)
@@ -507,6 +527,7 @@ func checkC18(c *Ctx, r *Report) {
 		"R3 the config file is replaced atomically: no truncating open of the live path; bytes reach it by os.Rename from a temp file in the same directory after a successful encode",
 		"R4 an update stages exactly the fields whose json tag equals the document key",
 		"R5 both entrances (file load and API update) run Config.verify",
+		"R7 before anything is staged the would-be file form (current + update) is decoded into a fresh Config and verified (dry run); staging is dominated by its success",
 		"R6 an update's steps (staging, commit, verify, persist, rollback, confirm) all run with one common mutex in the must-held set: updates are applied one at a time",
 	}
 	r.NotDec = []string{"that the process survives and every component is unchanged as a run-time fact", "write failure after every byte count (R3 is the structural equivalent)", "semantic sufficiency of verify() beyond the listed consumers", "the short window in which a committed-but-not-yet-verified value is readable by concurrent requests before the rollback"}
@@ -616,6 +637,71 @@ func checkC18(c *Ctx, r *Report) {
 		r.Check(len(bad) == 0, "C18.R1", "every failing exit after staging rolls the staged properties back", c.InstrPos(setp), "all error returns after setPropsFromMapRecursive pass RollbackStaged for the staged list", "error return(s) at "+strings.Join(bad, ", ")+" leave staged/committed values behind: a rejected update stays live")
 		// the rollback covers the list that was staged
 		r.Check(extractOf(setp, 0) != nil, "C18.R1", "the list of staged properties is kept", c.InstrPos(setp), "result #0 used", "the staged list is discarded")
+	}
+	// R7: an update is tried on a copy first. Before anything is staged on the live configuration, the document that
+	// would be written (current file form + the update) is decoded into a fresh Config and verified: an ill-typed or
+	// invalid value is refused before it can be committed (a committed-but-unverified value is readable by the change
+	// handlers of the previous update, which then keep it although it is rolled back), and what is verified is the
+	// form the next start loads — without the command-line overrides that can hide an invalid combination.
+	for _, f := range c.FuncsNamed(configPkg + ".UpdatePartialFromConfig") {
+		var stage *ssa.Call
+		eachInstr(f, func(in ssa.Instruction) {
+			if call, ok := in.(*ssa.Call); ok && stage == nil {
+				if n := calleeName(call); n == configPkg+".setPropsFromMapRecursive" || n == configPkg+".setPropsFromMap" {
+					stage = call
+				}
+			}
+		})
+		if stage == nil {
+			r.Undecided("C18.R7", "UpdatePartialFromConfig: staging call", c.Pos(f.Pos()), "unresolved anchor")
+			continue
+		}
+		// a dominating call whose body (same package, transitively) marshals, decodes into a NewDefault() config and verifies it
+		okDry, where := false, ""
+		eachInstr(f, func(in ssa.Instruction) {
+			call, ok := in.(*ssa.Call)
+			if !ok || okDry {
+				return
+			}
+			h := helperBody(call)
+			if h == nil {
+				return
+			}
+			has := map[string]bool{}
+			var verifyOnFresh bool
+			for _, g := range pkgGroup(li, h) {
+				eachInstr(g, func(i2 ssa.Instruction) {
+					c2, ok := i2.(*ssa.Call)
+					if !ok {
+						return
+					}
+					switch n := calleeName(c2); n {
+					case "encoding/json.Marshal", "(*encoding/json.Encoder).Encode":
+						has["marshal"] = true
+					case "encoding/json.Unmarshal", "(*encoding/json.Decoder).Decode":
+						has["decode"] = true
+					case configPkg + ".NewDefault":
+						has["fresh"] = true
+					case "(*" + configPkg + ".Config).verify":
+						if fc, ok := resolveVal(callArgs(c2)[0]).(*ssa.Call); ok && calleeName(fc) == configPkg+".NewDefault" {
+							verifyOnFresh = true
+						}
+					}
+				})
+			}
+			if has["marshal"] && has["decode"] && has["fresh"] && verifyOnFresh {
+				errv := ssa.Value(call)
+				if tup, isTuple := call.Type().(*types.Tuple); isTuple {
+					if ex := extractOf(call, tup.Len()-1); ex != nil {
+						errv = ex
+					}
+				}
+				if onlyWhenNil(f, stage, errv, true) {
+					okDry, where = true, c.InstrPos(call)
+				}
+			}
+		})
+		r.Check(okDry, "C18.R7", "an update is verified on a copy before anything is staged", c.InstrPos(stage), "staging dominated by the dry run at "+where+" returning nil (marshal + update -> decode into NewDefault() -> verify)", "the live configuration is staged and committed before the update has been verified: a value that is rejected and rolled back is readable in between (a change handler of the previous update adopts it and keeps it — the rollback notifies nobody), and verify() sees the command-line overrides instead of what is written to the file (an accepted update can write a file the next start rejects and resets)")
 	}
 	// R6: updates are applied one at a time. Staging, commit, verification, the write of the file, rollback and
 	// confirmation of one update run under one mutex: two updates in flight share the properties' staged / previous
